@@ -55,9 +55,21 @@ Reject(msgs) ==
 Verdict(bad, nextst) == IF bad = {} THEN Adv(nextst) ELSE Reject(bad)
 Msgs(prefix, names) == {prefix \o n : n \in names}
 
+\* "Failure to converge is reported as an error" on the recorded lower-bound trajectory (hook
+\* `gmm.iter`, cases with inp.hook): a fit that returned Ok was handed out by a run with the best
+\* final lower bound (ties: any of them), and that run's last change of the lower bound is below
+\* the tolerance in absolute value (Gmm.ConvOk: exact up to the encoding of the change).
+RunsBad ==
+  IF ~In.hook THEN {}
+  ELSE IF ~Ev.hooked \/ Len(Ev.runs) = 0 \/ Len(Ev.runs) > In.runs THEN {"fit: lower-bound events missing"}
+  ELSE IF \E q \in 1..Len(Ev.runs) : Ev.runs[q].n < 1 \/ Ev.runs[q].n > In.maxit THEN {"fit: iterations beyond the budget"}
+  ELSE LET fin == {q \in 1..Len(Ev.runs) : Ev.runs[q].lbfin}        \* a run with a NaN / infinite bound is never selected
+           best == {q \in fin : \A u \in fin : KeyLe(Ev.runs[u].lbk, Ev.runs[q].lbk)}
+       IN IF \E q \in best : ConvOk(Ev.runs[q].dnum, Ev.runs[q].d, In.toln, In.told) THEN {}
+          ELSE {"fit: Ok but the best run had not converged"}
 TFit ==
   /\ HasEv("fit") /\ st = "start"
-  /\ IF Ev.ok THEN Adv("fitted")
+  /\ IF Ev.ok THEN Verdict(RunsBad, "fitted")
      ELSE Verdict((IF Ev.err \in FitErrors THEN {} ELSE {"fit: undocumented error kind " \o Ev.err})
                   \cup (IF e = Len(Case.ev) THEN {} ELSE {"fit: events after an error"}), "failed")
 
